@@ -674,6 +674,17 @@ impl<A: ArenaAllocator> Drop for Arena<A> {
             let value = x.payload_ptr();
             x.0.drop_in_place(value);
         });
+        #[cfg(starlark_verif)]
+        if crate::verif_hooks::poison_enabled() {
+            // The values were dropped above and the chunks are released right after this.
+            unsafe {
+                for bump in [&self.drop, &self.non_drop] {
+                    for chunk in bump.iter_allocated_chunks_rev() {
+                        std::ptr::write_bytes(chunk.as_ptr() as *mut u8, 0xDB, chunk.len());
+                    }
+                }
+            }
+        }
     }
 }
 
